@@ -29,6 +29,10 @@ TransitiveContainsDirect == \A n \in N : QDeps(g, n) \subseteq QTDeps(g, n) /\ n
 \* what a change of f can invalidate: its owners and everything that transitively depends on them
 Affected(gr, f) == Owners(gr, f) \cup UNION {QTRdeps(gr, o) : o \in Owners(gr, f)}
 
+\* `grog changes --since=<ref>`: the targets owning a changed file, optionally with their transitive dependants (targets only)
+Changes(gr, f, transitive) == LET base == Owners(gr, f) IN
+                              {n \in (IF transitive THEN Affected(gr, f) ELSE base) : ~IsAlias(gr, n)}
+ChangesWithinAffected == \A f \in FilesQ : Changes(g, f, FALSE) \subseteq Changes(g, f, TRUE) /\ Changes(g, f, TRUE) \subseteq Affected(g, f)
 QGraphs == { x \in Graphs : x.tag = {} /\ x.plat = [n1 |-> "any", r |-> "any"] }
 \* one TLC state per query graph (the invocation component of Selection's state is irrelevant here)
 QInit == g \in QGraphs /\ inv = CHOOSE i \in Invocations : TRUE
@@ -41,6 +45,7 @@ QExport ==
         rdeps |-> [n \in N |-> QRdeps(x, n)], trdeps |-> [n \in N |-> QTRdeps(x, n)],
         tests |-> x.test, aliases |-> {n \in N : IsAlias(x, n)},
         owners |-> [f \in FilesQ |-> Owners(x, f)], affected |-> [f \in FilesQ |-> Affected(x, f)],
+        changes |-> [f \in FilesQ |-> [direct |-> Changes(x, f, FALSE), transitive |-> Changes(x, f, TRUE)]],
         list |-> [k \in 1..Len(PatSeq) |-> [ty \in {"all", "test", "no_test"} |-> ListOf(x, PatSeq[k], ty)]] ] : x \in QGraphs }) ]
 CONSTANT QOutFile
 ASSUME QOutFile = "" \/ JsonSerialize(QOutFile, QExport)
